@@ -38,11 +38,15 @@ MODELLED = ('spatial.py: get_normal_vector, create_rotation_matrix, create_affin
             'classes (constructor, affine, __call__), map_pixel_into_coordinate_system, map_coordinate_into_pixel_matrix; '
             'volume.py: VolumeGeometry.from_attributes/from_components, affine, position, spacing, direction_cosines, '
             'center_position, handedness, get_affine, map_indices_to_reference, map_reference_to_indices. '
-            'for_image/for_images and _get_spatial_information are exercised against the explicit-attribute '
-            'transformers by the oracle (dataset parsing is not modelled).')
+            'get_image_coordinate_system, _get_spatial_information, iter_tiled_full_frame_data / '
+            'compute_tile_positions_per_frame (the frame they yield), <Transformer>.for_image and '
+            'PixelToPixel/ImageToImage.for_images on the record of the attributes they read (kinds ds_info, ds_pair, '
+            'ds_tile); the older for_image kind additionally checks them against the explicit-attribute '
+            'transformers by the oracle only.')
 STRATA = ['rotation', 'affine_attr', 'inv_affine', 'p2r', 'i2r', 'r2p', 'r2i', 'p2p', 'i2i', 'coplanar',
           'map_pixel', 'map_coord', 'rot_po', 'closest', 'po_roundtrip', 'affine_comp', 'tam',
-          'to_convention', 'geom_attr', 'geom_comp', 'geom_maps', 'identities', 'for_image', 'malformed']
+          'to_convention', 'geom_attr', 'geom_comp', 'geom_maps', 'geom_more', 'identities', 'for_image',
+          'ds_info', 'ds_pair', 'ds_tile', 'malformed']
 RULE = ('orientations: 24 signed axis pairs, Pythagorean rotations about an axis, dense rational rotations from '
         'integer quaternions, left- and right-handed column choice; positions dyadic; spacings dyadic and '
         'non-dyadic rationals, scalar and per-axis; all 8 pixel index conventions x slices_first x handedness; all 48 '
@@ -322,6 +326,12 @@ def gen_cases(rng, tier):
     # ---- transformers built from datasets (oracle only) ---------------------------------------
     for _ in range(24 * N):
         add(_for_image_case(rng))
+    # ---- image datasets: model-compared (C10_Model.v get_spatial_information & co) ---------------
+    cases += _ds_cases(rng, N)
+    # ---- further volume accessors (model-compared) ---------------------------------------------
+    for _ in range(12 * N):
+        g = _geom(rng)
+        add({'kind': 'geom_more', 'g': g, 'shape': [rng.randint(1, 9) for _ in range(3)]})
     # ---- malformed stream --------------------------------------------------------------------
     cases += _malformed(rng, 70 * N)
     return cases
